@@ -154,12 +154,38 @@ func variant(t *qt) *qt {
 
 var quotedAtoms = []string{"a", "b", "xy", "Z", "9", " ", "  ", "\t", "(", ")", ",", ", ", "'", "''", "%", "_", ":", "[", "]", "{", "}", " AND ", " TO ", " OR ", "*", "?", "/", "-", "--", "+", "~", "^", "=", "<", ">", ";", "é", "$1", "\\\\"}
 
+// the special atoms of ONE query: values of the same query share a small palette (an opening bracket in one value, the closing
+// one in another; a quote here, a comma there), so that characters that only matter together meet in one query
+var palette []string
+
+var partners = map[string]string{"(": ")", ")": "(", "[": "]", "]": "[", "{": "}", "}": "{", "'": "'", ",": ", ", "*": "?", " AND ": " OR ", "%": "_", "--": ";", "<": ">"}
+
+func newPalette() {
+	a := pick(quotedAtoms)
+	if rng.Intn(3) == 0 { // the characters that come in pairs, and the ones SQL and the query syntax share
+		a = pick([]string{"(", ")", "[", "'", ",", "*", "%", " AND ", "{", "--"})
+	}
+	palette = []string{a, pick([]string{"a", "b", "xy", "Z", " "})}
+	if p, ok := partners[a]; ok {
+		palette = append(palette, p)
+	} else {
+		palette = append(palette, pick(quotedAtoms))
+	}
+}
+
 func composedQuoted() string {
+	if palette == nil || rng.Intn(40) == 0 {
+		newPalette()
+	}
 	n := 1 + rng.Intn(4)
 	var b strings.Builder
 	b.WriteByte('"')
 	for i := 0; i < n; i++ {
-		b.WriteString(pick(quotedAtoms))
+		if rng.Intn(10) < 7 {
+			b.WriteString(pick(palette))
+		} else {
+			b.WriteString(pick(quotedAtoms))
+		}
 	}
 	b.WriteByte('"')
 	return b.String()
